@@ -76,8 +76,94 @@ def cond_desc(body, conds, keep_try=False):
                     lab = "true" if excl == [0] else "false" if excl == [1] else "not%s" % excl
             else:
                 lab = ("=" + ",".join(map(str, vals))) if vals is not None else ("not in " + ",".join(map(str, excl or [])))
+        if d and d[0] == "un" and d[1] == "Not" and lab in ("true", "false"):
+            d = d[2]
+            lab = "false" if lab == "true" else "true"
         out.append((show(d), lab))
     return out
+
+
+def straight_to_switch(body, bb, limit=12):
+    """follow the single-successor chain from block bb to the next switch block"""
+    cur = bb
+    for _ in range(limit):
+        t = body.term(cur)
+        if t["k"] == "switch":
+            return cur
+        ss = body.succ(cur)
+        if len(ss) != 1:
+            return None
+        cur = ss[0]
+    return None
+
+
+def try_edges_after(body, call_bb):
+    """for a call whose Result is consumed by `?` (possibly through map_err/ok_or):
+    returns (continue_bb, break_bb) of the Try switch, or None"""
+    sb = straight_to_switch(body, body.succ(call_bb)[0]) if body.succ(call_bb) else None
+    if sb is None or not is_try_switch(body, sb):
+        return None
+    dv = discr_variants(body, sb)
+    if not dv:
+        return None
+    names, _ = dv
+    t = body.term(sb)
+    cont = brk = None
+    tm = {int(v): b for v, b in t["ts"]}
+    for v, n in names.items():
+        tgt = tm.get(v, t["o"])
+        if n == "Continue":
+            cont = tgt
+        elif n == "Break":
+            brk = tgt
+    return cont, brk
+
+
+def bool_edges_after(body, call_bb):
+    """for a call returning bool tested right away: returns (true_bb, false_bb) or None"""
+    if not body.succ(call_bb):
+        return None
+    sb = straight_to_switch(body, body.succ(call_bb)[0])
+    if sb is None:
+        return None
+    t = body.term(sb)
+    if t.get("dty") != "bool":
+        return None
+    d = Prov(body).operand(t["d"])
+    neg = False
+    while d and d[0] == "un" and d[1] == "Not":
+        d = d[2]
+        neg = not neg
+    call_t = Prov(body)._call(body.term(call_bb), True)
+    if d != call_t:
+        return None
+    tm = {int(v): b for v, b in t["ts"]}
+    false_bb = tm.get(0, t["o"])
+    true_bb = tm.get(1, t["o"]) if 1 in tm else t["o"]
+    if neg:
+        true_bb, false_bb = false_bb, true_bb
+    return true_bb, false_bb
+
+
+def err_returns(body, prov=None, guards=None):
+    """[(bb, show(error value), conds)] for `_0 = Err(x)` aggregate assignments"""
+    prov = prov or Prov(body)
+    guards = guards or Guards(body)
+    out = []
+    for (bi, kind, rv) in ret_assignments(body):
+        if kind == "err" and rv.get("k") == "agg":
+            out.append((bi, show(prov.operand(rv["ops"][0])), cond_desc(body, guards.conds(bi))))
+    return out
+
+
+def loop_header_of(body, ev_bb):
+    """innermost loop header (target of a back edge) that dominates block ev_bb and from which ev_bb is in the loop"""
+    best = None
+    for (src, hdr) in body.back_edges():
+        if body.dominates(hdr, ev_bb) and ev_bb in body.reach_from(hdr) and src in body.reach_from(ev_bb):
+            if best is None or body.dominates(best, hdr):
+                best = hdr
+    return best
 
 
 def unconditional(body, bb):
